@@ -185,7 +185,7 @@ def isSubmodName (p : Str) : Bool :=
   | _ => false
 
 def universeRoots : List Str := ["pa".toList, "pb".toList]
-def universeMembers : List Str := ["m1".toList, "m2".toList]
+def universeMembers : List Str := ["m1".toList, "m2".toList, "d1".toList, "d2".toList]
 
 /-- does the finder of the synthetic universe know this dotted module name -/
 def inUniverse (parts : List Str) : Bool :=
